@@ -92,8 +92,15 @@ package retriever
 
 //@ import context "context"
 //@ import graph "github.com/specterops/dawgs/graph"
-//@ ghost comp fragmentsVerified bool
-//@ ghost comp targetsEmpty bool
+//@ ghost comp fragmentChecked bool
+//@ ghost comp graphSeenEmpty bool
+
+// What "verified" means for one graph entry of a manifest: every fragment it lists has been digest- and
+// structure-checked (fragmentChecked[path], established only by the decoders when they are called with
+// verifyIntegrity == true and return nil). graphVerified is what loadManifestGraph requires.
+//@ pure func graphVerified(g GraphManifest) bool {
+//@   forall j int :: {:pattern g.Files[j].Path} 0 <= j && j < len(g.Files) ==> fragmentChecked[g.Files[j].Path]
+//@ }
 
 //@ func prepareLoadInput(options LoadOptions) (LoadOptions, func(), error)
 //@   opaque
@@ -101,6 +108,7 @@ package retriever
 //@ func readLoadManifest(inputDir string, driverName string) (Manifest, error)
 //@   opaque
 //@   nomod
+//@   ensures validated: result.1 == nil ==> (forall i int; j int :: {:pattern result.0.Graphs[i].Files[j].Phase} 0 <= i && i < len(result.0.Graphs) && 0 <= j && j < len(result.0.Graphs[i].Files) ==> result.0.Graphs[i].Files[j].Phase == PhaseNodes || result.0.Graphs[i].Files[j].Phase == PhaseEdges)
 //@ func manifestFileCount(value Manifest) int
 //@   opaque
 //@   nomod
@@ -110,18 +118,73 @@ package retriever
 //@ func assertManifestSchemas(ctx context.Context, db graph.Database, value Manifest) error
 //@   opaque
 //@   nomod
-//@ func verifyLoadFragments(inputDir string, nextManifest Manifest) error
+//@ func newNodeIDResolver(expected int64) *nodeIDResolver
 //@   opaque
-//@   modifies fragmentsVerified[inputDir]
-//@   ensures result == nil ==> fragmentsVerified[inputDir]
+//@   nomod
+//@   ensures result != nil
+
+// the decoders (bodies: file I/O, hashing, JSON): with verifyIntegrity they establish fragmentChecked for the file
+//@ func decodeNodeFragmentFile(inputDir string, codec CompressionCodec, fileEntry FileManifest, verifyIntegrity bool, handle func(FragmentNode) error) (int, error)
+//@   opaque
+//@   modifies fragmentChecked[fileEntry.Path]
+//@   ensures result.1 == nil && verifyIntegrity ==> fragmentChecked[fileEntry.Path]
+//@   ensures !(result.1 == nil && verifyIntegrity) ==> fragmentChecked[fileEntry.Path] == old(fragmentChecked[fileEntry.Path])
+//@ func decodeEdgeFragmentFile(inputDir string, codec CompressionCodec, fileEntry FileManifest, verifyIntegrity bool, handle func(FragmentEdge) error) (int, error)
+//@   opaque
+//@   modifies fragmentChecked[fileEntry.Path]
+//@   ensures result.1 == nil && verifyIntegrity ==> fragmentChecked[fileEntry.Path]
+//@   ensures !(result.1 == nil && verifyIntegrity) ==> fragmentChecked[fileEntry.Path] == old(fragmentChecked[fileEntry.Path])
+
+// verifyCollectionFragments (verified, not trusted): when it returns nil every fragment of every graph whose phase is
+// nodes or edges has been checked - no entry is skipped, whatever its count or position.
+//@ func verifyCollectionFragments(inputDir string, nextManifest Manifest) error
+//@   nosafety
+//@   modifies all(ghost:g.fragmentChecked)
+//@   ensures allChecked: result == nil ==> (forall i int; j int :: {:pattern nextManifest.Graphs[i].Files[j].Path} 0 <= i && i < len(nextManifest.Graphs) && 0 <= j && j < len(nextManifest.Graphs[i].Files) && (nextManifest.Graphs[i].Files[j].Phase == PhaseNodes || nextManifest.Graphs[i].Files[j].Phase == PhaseEdges) ==> fragmentChecked[nextManifest.Graphs[i].Files[j].Path])
+//@   ensures monotone: forall p string :: old(fragmentChecked[p]) ==> fragmentChecked[p]
+//@   loop 0
+//@     invariant range: -1 <= rangeindex
+//@     invariant mono: forall p string :: old(fragmentChecked[p]) ==> fragmentChecked[p]
+//@     invariant done: forall i int; j int :: {:pattern nextManifest.Graphs[i].Files[j].Path} 0 <= i && i <= rangeindex && 0 <= j && j < len(nextManifest.Graphs[i].Files) && (nextManifest.Graphs[i].Files[j].Phase == PhaseNodes || nextManifest.Graphs[i].Files[j].Phase == PhaseEdges) ==> fragmentChecked[nextManifest.Graphs[i].Files[j].Path]
+//@   loop 1
+//@     invariant range: -1 <= rangeindex && 0 <= rangeindex$outer + 1 && rangeindex$outer + 1 < len(nextManifest.Graphs)
+//@     invariant mono: forall p string :: old(fragmentChecked[p]) ==> fragmentChecked[p]
+//@     invariant done: forall i int; j int :: {:pattern nextManifest.Graphs[i].Files[j].Path} 0 <= i && i <= rangeindex$outer && 0 <= j && j < len(nextManifest.Graphs[i].Files) && (nextManifest.Graphs[i].Files[j].Phase == PhaseNodes || nextManifest.Graphs[i].Files[j].Phase == PhaseEdges) ==> fragmentChecked[nextManifest.Graphs[i].Files[j].Path]
+//@     invariant current: forall j int :: {:pattern nextManifest.Graphs[rangeindex$outer + 1].Files[j].Path} 0 <= j && j <= rangeindex && (nextManifest.Graphs[rangeindex$outer + 1].Files[j].Phase == PhaseNodes || nextManifest.Graphs[rangeindex$outer + 1].Files[j].Phase == PhaseEdges) ==> fragmentChecked[nextManifest.Graphs[rangeindex$outer + 1].Files[j].Path]
+
+//@ func verifyLoadFragments(inputDir string, nextManifest Manifest) error
+//@   nosafety
+//@   modifies all(ghost:g.fragmentChecked)
+//@   ensures allChecked: result == nil ==> (forall i int; j int :: {:pattern nextManifest.Graphs[i].Files[j].Path} 0 <= i && i < len(nextManifest.Graphs) && 0 <= j && j < len(nextManifest.Graphs[i].Files) && (nextManifest.Graphs[i].Files[j].Phase == PhaseNodes || nextManifest.Graphs[i].Files[j].Phase == PhaseEdges) ==> fragmentChecked[nextManifest.Graphs[i].Files[j].Path])
+//@   ensures monotone: forall p string :: old(fragmentChecked[p]) ==> fragmentChecked[p]
+
+// requireEmptyLoadTargetsWithCounter (verified): when it returns nil the counter reported zero nodes and zero
+// relationships for the graph of every entry (graphSeenEmpty[name] is established only by the counter's contract).
+//@ func requireEmptyLoadTargetsWithCounter(ctx context.Context, db graph.Database, graphEntries []GraphManifest, countSnapshot graphEntitySnapshotCounter) error
+//@   nosafety
+//@   fparam countSnapshot(ctx context.Context, db graph.Database, target graph.Graph) (graphEntitySnapshot, error)
+//@     modifies graphSeenEmpty[target.Name]
+//@     ensures result.0.NodeCount >= 0 && result.0.EdgeCount >= 0
+//@     ensures result.1 == nil && result.0.NodeCount == 0 && result.0.EdgeCount == 0 ==> graphSeenEmpty[target.Name]
+//@     ensures !(result.1 == nil && result.0.NodeCount == 0 && result.0.EdgeCount == 0) ==> graphSeenEmpty[target.Name] == old(graphSeenEmpty[target.Name])
+//@   endfparam
+//@   modifies all(ghost:g.graphSeenEmpty)
+//@   ensures allEmpty: result == nil ==> (forall i int :: {:pattern graphEntries[i].Name} 0 <= i && i < len(graphEntries) ==> graphSeenEmpty[graphEntries[i].Name])
+//@   loop 0
+//@     invariant range: -1 <= rangeindex
+//@     invariant mono: forall p string :: old(graphSeenEmpty[p]) ==> graphSeenEmpty[p]
+//@     invariant done: forall i int :: {:pattern graphEntries[i].Name} 0 <= i && i <= rangeindex ==> graphSeenEmpty[graphEntries[i].Name]
+
+// requireEmptyLoadTargets hands the real counter to the function above; that the real counter meets the fparam
+// contract (it counts the nodes and relationships of the named graph in the target database) is trusted.
 //@ func requireEmptyLoadTargets(ctx context.Context, db graph.Database, graphEntries []GraphManifest) error
 //@   opaque
-//@   modifies targetsEmpty[db]
-//@   ensures result == nil ==> targetsEmpty[db]
+//@   modifies all(ghost:g.graphSeenEmpty)
+//@   ensures allEmpty: result == nil ==> (forall i int :: {:pattern graphEntries[i].Name} 0 <= i && i < len(graphEntries) ==> graphSeenEmpty[graphEntries[i].Name])
 //@ func loadManifestGraph(ctx context.Context, db graph.Database, options LoadOptions, codec CompressionCodec, graphIndex int, graphCount int, graphEntry GraphManifest) (int64, int64, error)
 //@   opaque
-//@   requires verifiedFirst: fragmentsVerified[options.InputDir]
-//@   requires emptyFirst: targetsEmpty[db]
+//@   requires verifiedFirst: forall j int :: {:pattern graphEntry.Files[j].Path} 0 <= j && j < len(graphEntry.Files) ==> fragmentChecked[graphEntry.Files[j].Path]
+//@   requires emptyFirst: graphSeenEmpty[graphEntry.Name]
 //@   nomod
 //@ func verifyLoadedMetrics(ctx context.Context, db graph.Database, value Manifest, batchSize int, progress ProgressFunc, progressInterval int64) error
 //@   opaque
@@ -130,7 +193,9 @@ package retriever
 //@ func Load(ctx context.Context, db graph.Database, driverName string, options LoadOptions) (LoadResult, error)
 //@   nosafety
 //@   loop 0
-//@     invariant cleared: fragmentsVerified[options.InputDir] && targetsEmpty[db]
+//@     invariant range: -1 <= rangeindex
+//@     invariant verified: forall i int; j int :: {:pattern nextManifest.Graphs[i].Files[j].Path} 0 <= i && i < len(nextManifest.Graphs) && 0 <= j && j < len(nextManifest.Graphs[i].Files) ==> fragmentChecked[nextManifest.Graphs[i].Files[j].Path]
+//@     invariant empty: forall i int :: {:pattern nextManifest.Graphs[i].Name} 0 <= i && i < len(nextManifest.Graphs) ==> graphSeenEmpty[nextManifest.Graphs[i].Name]
 
 // the names the publishers join to the output directory are plain file names (validated by the bounded path harness)
 //@ axiom plainNames: plainName(dumpCheckpointFileName) && plainName(dumpCheckpointFileName + ".tmp") && plainName(manifestFileName) && plainName(manifestFileName + ".tmp")
